@@ -151,6 +151,7 @@ for _p in ['C01', 'C02', 'C03', 'C04', 'C05', 'C07', 'C08', 'C09', 'C10', 'C11',
 
 # One-line statement of the clause each later rule decides; appended to the property text for every property the rule serves.
 RULE_CLAUSES = {
+    'RELIDX': 'the index builders of a relation file images under rows and co-images under columns (RELIDX)',
     'TRANSLALL': 'every rule (and rule position) of the automaton adds its edge to the LTS the simulation is computed on (TRANSLALL)',
     'SELFREF': 'a class with a member bound to its own storage has user-provided or deleted copy/move operations that re-bind it (SELFREF)',
     'SAMELEN': 'tuples combined position by position are guarded by an equality of their lengths (SAMELEN)',
